@@ -1,3 +1,4 @@
+import XPathV.Generated.ExtraFacts
 import XPathV.Model.Api
 import XPathV.Lemmas.Facts
 /-!
@@ -90,5 +91,10 @@ theorem nodeset_argument_empty (d : Doc) (cfg : ECfg) (c : Ref) (b : String) :
     callFn (F := F) d cfg "contains" .nil c [.ok (.nodes []), .ok (.str b)] none
       = .ok (.bool (Spec.fnContains "" b)) := by
   simp [callFn, bind, Except.bind]
+
+/-- T0: the bounds `substringFunc` computes are the ones `substringM` models:
+`first = floor(start+0.5)`, `last = first + floor(length+0.5)` (or +Inf), clipped to `[1, len+1]` -/
+theorem substring_bounds_source_ok : Generated.substringBoundsSrc =
+    ["first:=math.Floor(start+0.5)", "last:=math.Inf(1)", "last=first+math.Floor(length+0.5)", "first=1", "last=float64(len(m)+1)"] := rfl
 
 end XPathV.Theorems.C09
